@@ -37,3 +37,12 @@ impl Clone for BitSet {
         ensures r@ == self@,
     { unimplemented!() }
 }
+
+impl BitSet {
+    /// number of elements (A-bitset; nothing is assumed about how it relates to the view)
+    pub uninterp spec fn len_s(&self) -> nat;
+    #[verifier::external_body]
+    pub fn len(&self) -> (r: usize)
+        ensures r == self.len_s(),
+    { unimplemented!() }
+}
